@@ -54,3 +54,28 @@ def proof_obligations(chk, build, prop_files, gen_modules=()):
 
 def load_replay(path):
     return json.load(open(path, encoding="utf8", errors="surrogatepass"))
+
+
+def conclude(chk, proofs_ok, disagreements, oracle_failed):
+    """broken obligation / disagreeing view without a failing input -> VIOLATION ... no-failing-input-found"""
+    if (not proofs_ok or disagreements) and not oracle_failed:
+        what = [n for n, ok, _ in chk.obligations if not ok] + sorted({d.get("view", "?") for d in disagreements})
+        chk.fail_nowitness("; ".join(what), {"disagreements": disagreements[:5],
+                                             "obligations": [o for o in chk.obligations if not o[1]]})
+
+
+def run_view(chk, view, label, terms, meta, disagreements, shard=100, header="", extra=None):
+    if not terms:
+        chk.views[label] = {"cases": 0, "disagreements": 0, "errors": []}
+        return
+    tot, bad, errs = common.eval_cases(view, terms, chk.workdir, shard=shard, header=header)
+    chk.views[label] = dict({"cases": tot, "disagreements": len(bad), "errors": errs[:2]}, **(extra or {}))
+    for b in bad[:5]:
+        d = dict(meta[b]) if isinstance(meta[b], dict) else {"case": meta[b]}
+        d["view"] = label
+        disagreements.append(d)
+    if errs:
+        disagreements.append({"view": label, "error": errs[0]})
+
+
+EMIT_HEADER = "From J2M.Model Require Import Framework Emit."
